@@ -31,6 +31,10 @@ def gen_labels(rng, kind):
     if rng.rand() < 0.7:
         m = rng.rand(n) < rng.uniform(0.05, 0.5)
         y = np.where(m, -1, y)                                 # unknown labels anywhere
+        if rng.rand() < 0.4:
+            # any negative value marks an unknown label, not only -1
+            y = np.where(m & (rng.rand(n) < 0.5), -int(rng.randint(2, 6)), y)
+            y = np.where(m & (rng.rand(n) < 0.2), -7, y)
     return y.astype(int)
 
 
